@@ -242,7 +242,7 @@ Cap(root, k) ==
 \* a read that reaches the disk fills the clean cache: here, every unshadowed persisted node at once
 Warm ==
   /\ Usable
-  /\ \E k \in DOMAIN dnodes : k \notin DOMAIN buf /\ k \notin DOMAIN clean
+  /\ {k \in DOMAIN dnodes : k \notin DOMAIN buf /\ k \notin DOMAIN clean} # {}
   /\ act' = [name |-> "Warm"]
   /\ clean' = [k \in (DOMAIN clean \cup (DOMAIN dnodes \ DOMAIN buf)) |-> IF k \in DOMAIN clean THEN clean[k] ELSE dnodes[k]]
   /\ UNCHANGED <<layers, lmap, nl, buf, bufLayers, eager, dnodes, pid, journal, dcontent, tainted, failed, nupd, nrst>>
